@@ -1,3 +1,4 @@
+import Varint.Bridge.Delta
 import Varint.Bridge.RLEDec
 import Varint.Bridge.RLE
 import Varint.Bridge.Sizes
@@ -83,6 +84,30 @@ theorem c_rle_codec_roundtrip (xs : List Nat) (hx : U64s xs) (hn : xs.length < 2
     · exact Varint.Bridge.RLEDec.enc_lt xs hx (by omega) b h1
     · exact hr b h1
   exact Varint.Bridge.RLEDec.rleDecode_eq _ hb xs.length (by omega) xs (RLE.dec_enc xs hx (by omega) rest) fuel hf
+
+/-- **unsigned delta, both directions on the machine translation of src/varintDelta.c** (width loops, external
+    put/get through the byte views, zig-zag, pointer walk — all regenerated from the current source): for EVERY array of
+    64-bit values (every difference wraps, nothing is excluded) `varintDeltaEncodeUnsigned` leaves the model's bytes at
+    output[0 … n-1] — each index below n stored once, none beyond — and returns n; `varintDeltaDecodeUnsigned` on that
+    memory, whatever follows it, stores the original values at output[0], output[1], … and returns n -/
+theorem c_delta_unsigned_roundtrip (xs : List Nat) (hx : U64s xs) (hn : xs.length < 2 ^ 58) (rest : List Nat)
+    (hr : ∀ b ∈ rest, b < 256) (hrl : rest.length < 2 ^ 62) (fuel : Nat) (hf : xs.length + 9 ≤ fuel) :
+    ∃ n stores,
+      Varint.Gen.C.deltaEncodeUnsigned fuel (Varint.Bridge.Tagged.bufOf xs) xs.length = some (n, stores) ∧
+      Varint.Bridge.External.Writes stores (Delta.encU xs) ∧ n = (Delta.encU xs).length ∧
+      Varint.Gen.C.deltaDecodeUnsigned fuel (Varint.Bridge.Tagged.bufOf (Delta.encU xs ++ rest)) xs.length =
+        some (n, Varint.Bridge.storesFrom 0 xs) := by
+  obtain ⟨stores, h1, h2⟩ := Varint.Bridge.Delta.deltaEncodeUnsigned_eq xs hx (by omega) fuel hf
+  refine ⟨_, stores, h1, h2, rfl, ?_⟩
+  have hb : ∀ b ∈ Delta.encU xs ++ rest, b < 256 := by
+    intro b hbm
+    rcases List.mem_append.1 hbm with h | h
+    · exact Varint.Bridge.Delta.encU_lt xs hx b h
+    · exact hr b h
+  have hle := Delta.encU_length_le xs hx
+  have hm : Delta.maxSize xs.length ≤ 9 * xs.length + 9 := by unfold Delta.maxSize; split <;> omega
+  exact Varint.Bridge.Delta.deltaDecodeUnsigned_eq _ hb (by rw [List.length_append]; omega) xs.length (by omega) xs _
+    (Delta.decU_encU xs hx rest) fuel (by omega)
 
 /-! ## group varint (1–64 fields) -/
 
